@@ -99,6 +99,7 @@ typedef struct {
     size_t size;
     int flags;
     char name[40];
+    void (*snap_fn)(const void *, const char *);
 } nm;
 static nm *names;
 static int nnames, capnames;
@@ -159,6 +160,7 @@ static void vname(const void *addr, size_t size, int flags, const char *fmt, va_
     e->base = addr;
     e->size = size;
     e->flags = flags;
+    e->snap_fn = NULL;
     vsnprintf(e->name, sizeof e->name, fmt, ap);
     if (logf)
         fprintf(logf, "N %s %zu\n", e->name, size);
@@ -176,6 +178,12 @@ void vs_name_ex(const void *addr, size_t size, int flags, const char *fmt, ...)
     va_start(ap, fmt);
     vname(addr, size, flags, fmt, ap);
     va_end(ap);
+}
+void vs_set_snap_fn(const void *addr, void (*fn)(const void *, const char *))
+{
+    nm *e = lookup(addr);
+    if (e)
+        e->snap_fn = fn;
 }
 void vs_unname(const void *addr)
 {
@@ -582,6 +590,8 @@ void abt_verif_atomic(int kind, int width, const volatile void *addr, uint64_t a
     char n1[64], u[64];
     fprintf(logf, "A %d %s %s %s %lld %lld %lld\n", self->id, unit_name(u, sizeof u), OPN[kind], vs_addr_name((const void *)addr, n1, sizeof n1),
             (long long)cur, (long long)a, (long long)b);
+    if (e && e->snap_fn && kind == 3)
+        e->snap_fn(e->base, e->name);
     if (e && (e->flags & VS_SNAP) && !is_load) {
         fprintf(logf, "P %s ", e->name);
         size_t n = e->size > 160 ? 160 : e->size;
@@ -596,10 +606,17 @@ void abt_verif_event(int kind, const void *p1, const void *p2, long v)
     if (!on || !me)
         return;
     vthread *self = me;
-    if (kind == 50 && logf && !lookup(p2)) {
-        /* wait-list node on a waiter's stack (external thread / timed wait): name it while it is queued */
+    if (kind == 50 && logf) {
+        /* wait-list node on a waiter's stack (external thread / timed wait): name it while it is queued.
+         * Stale names of earlier nodes that overlap the new one (stack reuse) are dropped first. */
         static int wn;
-        vs_name(p2, 96, "W%d", wn++);
+        nm *e;
+        while ((e = lookup(p2)) != NULL && e->name[0] == 'W' && e->base != (const char *)p2)
+            e->base = NULL;
+        while ((e = lookup((const char *)p2 + 95)) != NULL && e->name[0] == 'W' && e->base != (const char *)p2)
+            e->base = NULL;
+        if (!lookup(p2))
+            vs_name(p2, 96, "W%d", wn++);
     }
     if (mode_pct && kind == 8) /* a yielding thread goes to the back (PCT treatment of yields) */
         self->prio = pct_low--;
@@ -879,6 +896,12 @@ int __wrap_clock_gettime(clockid_t id, struct timespec *ts)
     tick();
     ts->tv_sec = (time_t)vclock;
     ts->tv_nsec = (long)((vclock - (double)(time_t)vclock) * 1e9);
+    if (logf) {
+        char u[64];
+        /* the value the caller will compute from the timespec (sec + 1e-9 * nsec) */
+        fprintf(logf, "K %d %s %.17g\n", me->id, unit_name(u, sizeof u), (double)ts->tv_sec + 1.0e-9 * (double)ts->tv_nsec);
+        me->lg_addr = NULL;
+    }
     return 0;
 }
 int __wrap_gettimeofday(struct timeval *tv, void *tz)
